@@ -63,6 +63,7 @@ type c14Sched struct {
 	threads  []*c14Thread
 	pool     proxy.HostPool
 	inflight []int32
+	tagTimes int32
 }
 
 var (
@@ -119,6 +120,11 @@ type c14Transport struct {
 func (t *c14Transport) RoundTrip(req *http.Request) (*http.Response, error) {
 	tid, _ := strconv.Atoi(req.Header.Get("X-Verif-Thread"))
 	th := t.s.threads[tid]
+	if n := len(req.Header["X-Verif-Tag"]); n != 1 {
+		// the upstream block adds this header once per request (C04); a request that lost its slot and
+		// selected again must not carry it twice
+		atomic.StoreInt32(&t.s.tagTimes, int32(n))
+	}
 	atomic.AddInt32(&t.s.inflight[t.host], 1)
 	atomic.StoreInt32(&th.host, int32(t.host))
 	th.set(c14InTransport)
@@ -182,7 +188,7 @@ func c14Eval(f []string) (string, []string) {
 	for i := 0; i < nHosts; i++ {
 		fmt.Fprintf(&cfg, " h%d.test:80", i)
 	}
-	fmt.Fprintf(&cfg, " {\n policy verif_barrier %s\n max_conns %d\n max_fails %d\n fail_timeout %s\n}\n", id, maxConns, maxFails, ft)
+	fmt.Fprintf(&cfg, " {\n policy verif_barrier %s\n max_conns %d\n max_fails %d\n fail_timeout %s\n header_upstream +X-Verif-Tag t\n}\n", id, maxConns, maxFails, ft)
 	ups, err := proxy.NewStaticUpstreams(casketfile.NewDispenser("Testfile", strings.NewReader(cfg.String())), "")
 	if err != nil || len(ups) != 1 {
 		return fmt.Sprintf("setup-error:%v", err), nil
@@ -375,6 +381,9 @@ func c14Eval(f []string) (string, []string) {
 			// unblock what is left so that nothing leaks, then report
 			return "not-quiescent:" + strings.Join(snaps, ";"), []string{"not-quiescent"}
 		}
+	}
+	if n := atomic.LoadInt32(&s.tagTimes); n != 0 {
+		return fmt.Sprintf("rule-applied-%d-times:", n) + strings.Join(snaps, ";"), []string{"rule-reapplied"}
 	}
 	snaps = append(snaps, snapshot("final"))
 	var tl []string
